@@ -714,10 +714,10 @@ func c05stall(r *core.Run) {
 		atomic.StoreInt64(&ls.tty.WriteDelayNS, 0)
 		ls.tty.Feed([]byte{0x1d})
 		got, ok := wait()
+		ls.judgeSentinel(r, ok, "stall scenario")
 		ls.fini()
 		switch {
 		case !ok:
-			r.Inconclusive("stall scenario: sentinel not delivered")
 			r.Case("")
 		case !stalled || gap > 40*time.Millisecond:
 			// the harness did not manage to deliver the second read inside the timeout window
